@@ -146,6 +146,10 @@ Definition instantiate (seed_ok target_ok : bool) (order : list instantiater) (m
 
 End Model.
 
+(* Python floats with NaN: `<` is false as soon as one side is NaN (None); not a strict weak order *)
+Definition fltb (a b : option Z) : bool :=
+  match a, b with Some x, Some y => Z.ltb x y | _, _ => false end.
+
 Arguments mkop {X}.
 Arguments gate {X}. Arguments gnp {X}. Arguments loc {X}. Arguments params {X}.
 Arguments mkI {X K}.
